@@ -39,6 +39,21 @@ class Violation(AssertionError):
         self.detail = detail
 
 
+def _pass_through():
+    try:
+        from hypothesis.errors import UnsatisfiedAssumption, StopTest
+
+        return (Violation, HarnessError, UnsatisfiedAssumption, StopTest)
+    except ImportError:  # pragma: no cover
+        return (Violation, HarnessError)
+
+
+# Exceptions a property body must never swallow: put
+# `except core.PASS_THROUGH: raise` before any broad `except Exception` that
+# surrounds ctx.fail()/ctx.fail_exc() calls.
+PASS_THROUGH = _pass_through()
+
+
 # --------------------------------------------------------------------------
 # bootstrap
 
@@ -266,6 +281,8 @@ class Ctx:
         raise Violation(sig, detail)
 
     def fail_exc(self, clause: str, exc: BaseException, disc: str = '', case=None):
+        if isinstance(exc, PASS_THROUGH):
+            raise exc
         where = aeic_frame(exc)
         tb = ''.join(traceback.format_exception(type(exc), exc, exc.__traceback__)[-6:])
         return self.fail(clause, type(exc).__name__, where, disc, f'{exc!r}\n{tb}', case)
